@@ -31,6 +31,7 @@ type ReplayFile struct {
 	C18       *C18Case    `json:"c18,omitempty"`
 	C14       *C14Case    `json:"c14,omitempty"`
 	From      interface{} `json:"minimised_from,omitempty"`
+	Count     int         `json:"count,omitempty"` // occurrences of this violation class in the worker (C14 keeps one representative per class)
 }
 
 type WorkerResult struct {
